@@ -2,10 +2,10 @@
 
 package grpc
 
-// C18, E1 leg: every schedule with at most B preemptions of a sender goroutine
-// (SendMsg m1, SendMsg m2, CloseSend), a receiver goroutine (RecvMsg until the
-// end) and a scripted raw HTTP/2 server racing one or two policy retries of ONE
-// streaming RPC on a real ClientConn.
+// C18 + C23, E1 leg: every schedule with at most B preemptions of a sender
+// goroutine (SendMsg m1, SendMsg m2, CloseSend), a receiver goroutine (RecvMsg
+// until the end) and a scripted raw HTTP/2 server racing one or two policy
+// retries of ONE streaming RPC on a real ClientConn.
 //
 // The root package is instrumented (clientStream.mu, csAttempt.mu, the picker
 // wrapper's atomics ... are scheduling points), the transport is not: its
@@ -18,20 +18,34 @@ package grpc
 // anywhere among the sender's and receiver's steps - and answers the last
 // attempt OK once that attempt's stream has been half-closed.  The retry backoff
 // (a native timer wait with clientStream.mu held) is passed by an environment
-// step that advances virtual time when nothing else can run.
+// step that advances virtual time when nothing else can run.  In the
+// flow-control scenario the messages are 200 KB, the raw server never opens
+// attempt 1's stream window, so the sender is blocked inside SendMsg (write
+// quota) and the receiver inside RecvMsg when attempt 1 fails: two operations
+// see the same failure.
 //
-// Oracle (from the property text, computed from the raw peer's frame log and
-// the harness ledger of what the application was told):
+// The channel uses a harness LB policy (one subchannel over the wire.Pipe
+// connection) whose picker numbers every pick and hands out a recording Done
+// callback.
+//
+// C18 oracle (from the property text, computed from the raw peer's frame log
+// and the harness ledger of what the application was told):
 //   - the LAST attempt's stream received exactly the messages whose SendMsg
 //     returned nil, in order, each once, followed by END_STREAM iff CloseSend
 //     returned;
 //   - every attempt's stream received a prefix of the application's send
-//     sequence (nothing duplicated, reordered or invented), END_STREAM only after
-//     all of it;
+//     sequence (nothing duplicated, reordered or invented);
 //   - the number of attempts is what the script implies (bounded, one per
 //     scripted failure + 1) and grpc-previous-rpc-attempts counts up;
-//   - the receiver got the response of the last attempt and a clean end;
+//   - the receiver got the response of the last attempt and a clean end; the RPC
+//     does not hang;
 //   - after the RPC ended the stream is committed and the replay buffer released.
+//
+// C23 oracle (from its statement, at the end of every execution, before the
+// channel is closed): every pick that returned a SubConn had its Done callback
+// invoked EXACTLY once (0 = the attempt was orphaned, 2 = double completion),
+// never before the server had answered that pick's attempt (unless the RPC was
+// cancelled), and there are as many picks as attempts at the server.
 
 import (
 	"context"
@@ -46,6 +60,8 @@ import (
 	"time"
 
 	"golang.org/x/net/http2"
+	"google.golang.org/grpc/balancer"
+	"google.golang.org/grpc/connectivity"
 	"google.golang.org/grpc/credentials/insecure"
 	"google.golang.org/grpc/internal/verif/vk"
 	"google.golang.org/grpc/internal/verif/vsched"
@@ -74,21 +90,134 @@ func (c18sCodec) Unmarshal(data mem.BufferSlice, v any) error {
 	return nil
 }
 
-const c18sServiceConfig = `{"methodConfig":[{"name":[{"service":"s"}],"retryPolicy":{"maxAttempts":3,"initialBackoff":"0.001s","maxBackoff":"0.001s","backoffMultiplier":1,"retryableStatusCodes":["UNAVAILABLE"]}}]}`
+const c18sLBName = "verif_c18s_lb"
+
+const c18sServiceConfig = `{"loadBalancingConfig":[{"` + c18sLBName + `":{}}],"methodConfig":[{"name":[{"service":"s"}],"retryPolicy":{"maxAttempts":3,"initialBackoff":"0.001s","maxBackoff":"0.001s","backoffMultiplier":1,"retryableStatusCodes":["UNAVAILABLE"]}}]}`
 
 // c18sVariant is one scenario shape.
 type c18sVariant struct {
-	Name       string
-	Failures   int    // scripted trailers-only UNAVAILABLE answers (attempts 1..Failures), the next attempt is answered OK
-	Pushback   bool   // the failures carry grpc-retry-pushback-ms: 0
-	Receiver   string // "recv": RecvMsg loop; "header": Header() then RecvMsg loop
-	ServerStrm bool   // StreamDesc.ServerStreams
-	RecvFirst  bool   // thread order: receiver before sender (decides the default schedule)
+	Name        string
+	Failures    int    // scripted trailers-only UNAVAILABLE answers (attempts 1..Failures), the next attempt is answered OK
+	Pushback    bool   // the failures carry grpc-retry-pushback-ms: 0
+	Receiver    string // "recv": RecvMsg loop; "header": Header() then RecvMsg loop
+	ServerStrm  bool   // StreamDesc.ServerStreams
+	RecvFirst   bool   // thread order: receiver before sender (decides the default schedule)
+	FlowCtl     bool   // 200 KB messages, attempt 1's stream window is never opened: SendMsg blocks on attempt 1
+	MinOutcomes int
 }
 
+const c18sBigMsg = 200 << 10
+
+// ---------------------------------------------------------------- LB policy with recording Done callbacks
+
+type c18sDone struct {
+	Err           string
+	BytesSent     bool
+	BytesReceived bool
+	Early         bool // invoked although the server had not answered the pick's attempt and nothing was cancelled
+}
+
+type c18sPick struct {
+	ID    int
+	Dones []c18sDone
+}
+
+// c18sCur is the world of the execution that is currently running (executions
+// run strictly one after the other in a process).
+var c18sCur *c18sWorld
+
+type c18sLBBuilder struct{}
+
+func (c18sLBBuilder) Name() string { return c18sLBName }
+func (c18sLBBuilder) Build(cc balancer.ClientConn, _ balancer.BuildOptions) balancer.Balancer {
+	return &c18sLB{w: c18sCur, cc: cc}
+}
+
+func init() { balancer.Register(c18sLBBuilder{}) }
+
+type c18sLB struct {
+	w  *c18sWorld
+	cc balancer.ClientConn
+	mu sync.Mutex
+	sc balancer.SubConn
+}
+
+func (b *c18sLB) UpdateClientConnState(s balancer.ClientConnState) error {
+	b.mu.Lock()
+	defer b.mu.Unlock()
+	if b.sc != nil || len(s.ResolverState.Addresses) == 0 {
+		return nil
+	}
+	sc, err := b.cc.NewSubConn(s.ResolverState.Addresses[:1], balancer.NewSubConnOptions{StateListener: b.onState})
+	if err != nil {
+		return err
+	}
+	b.sc = sc
+	b.cc.UpdateState(balancer.State{ConnectivityState: connectivity.Connecting, Picker: c18sErrPicker{balancer.ErrNoSubConnAvailable}})
+	sc.Connect()
+	return nil
+}
+
+func (b *c18sLB) onState(s balancer.SubConnState) {
+	b.mu.Lock()
+	sc := b.sc
+	b.mu.Unlock()
+	switch s.ConnectivityState {
+	case connectivity.Ready:
+		b.cc.UpdateState(balancer.State{ConnectivityState: connectivity.Ready, Picker: &c18sPicker{w: b.w, sc: sc}})
+	case connectivity.Idle:
+		b.cc.UpdateState(balancer.State{ConnectivityState: connectivity.Connecting, Picker: c18sErrPicker{balancer.ErrNoSubConnAvailable}})
+		sc.Connect()
+	case connectivity.Connecting:
+		b.cc.UpdateState(balancer.State{ConnectivityState: connectivity.Connecting, Picker: c18sErrPicker{balancer.ErrNoSubConnAvailable}})
+	case connectivity.TransientFailure:
+		b.cc.UpdateState(balancer.State{ConnectivityState: connectivity.TransientFailure, Picker: c18sErrPicker{s.ConnectionError}})
+	}
+}
+
+func (b *c18sLB) ResolverError(error)                                        {}
+func (b *c18sLB) UpdateSubConnState(balancer.SubConn, balancer.SubConnState) {}
+func (b *c18sLB) ExitIdle()                                                  {}
+func (b *c18sLB) Close()                                                     {}
+
+type c18sErrPicker struct{ err error }
+
+func (p c18sErrPicker) Pick(balancer.PickInfo) (balancer.PickResult, error) {
+	return balancer.PickResult{}, p.err
+}
+
+type c18sPicker struct {
+	w  *c18sWorld
+	sc balancer.SubConn
+}
+
+func (p *c18sPicker) Pick(balancer.PickInfo) (balancer.PickResult, error) {
+	w := p.w
+	w.mu.Lock()
+	pk := &c18sPick{ID: len(w.picks) + 1}
+	w.picks = append(w.picks, pk)
+	w.mu.Unlock()
+	return balancer.PickResult{SubConn: p.sc, Done: func(di balancer.DoneInfo) {
+		d := c18sDone{BytesSent: di.BytesSent, BytesReceived: di.BytesReceived}
+		if di.Err != nil {
+			d.Err = di.Err.Error()
+		}
+		w.mu.Lock()
+		d.Early = !w.answered[pk.ID] && !w.released
+		pk.Dones = append(pk.Dones, d)
+		w.mu.Unlock()
+	}}, nil
+}
+
+// ---------------------------------------------------------------- world
+
 type c18sWorld struct {
-	mu    sync.Mutex
-	peers []*wire.Peer
+	mu       sync.Mutex
+	peers    []*wire.Peer
+	picks    []*c18sPick
+	answered map[int]bool // attempt number -> the server wrote its terminal frames
+	released bool         // the RPC was cancelled / the channel is being closed
+	bigMsg   bool
 }
 
 func (w *c18sWorld) dial(context.Context, string) (net.Conn, error) {
@@ -97,26 +226,100 @@ func (w *c18sWorld) dial(context.Context, string) (net.Conn, error) {
 	p.AutoAckSettings = true
 	p.AutoAckPing = true
 	p.WriteSettings(http2.Setting{ID: http2.SettingMaxConcurrentStreams, Val: 100})
+	p.WriteWindowUpdate(0, 1<<30) // the connection window never limits anything
 	w.mu.Lock()
 	w.peers = append(w.peers, p)
 	w.mu.Unlock()
 	return c, nil
 }
 
-// c18sAttempt is one request stream in arrival order.
-type c18sAttempt struct {
-	peer   *wire.Peer
-	stream uint32
-	prev   string
-	msgs   []string
-	es     bool
-	bad    string
+func (w *c18sWorld) picksSnapshot() []c18sPick {
+	w.mu.Lock()
+	defer w.mu.Unlock()
+	out := make([]c18sPick, len(w.picks))
+	for i, p := range w.picks {
+		out[i] = c18sPick{ID: p.ID, Dones: append([]c18sDone(nil), p.Dones...)}
+	}
+	return out
 }
 
-// attempts decodes the peers' frame logs (independent 5-byte-prefix parser).
+// c18sAttempt is one request stream in arrival order.
+type c18sAttempt struct {
+	peer    *wire.Peer
+	stream  uint32
+	prev    string
+	msgs    []string // complete messages (labels)
+	partial string   // an incomplete trailing message, e.g. "m1:65530/204800"
+	es      bool
+	bad     string
+}
+
+// c18sMsgDec cuts a DATA byte stream into gRPC messages (independent 5-byte
+// prefix parser) without keeping the payloads: a message is represented by its
+// text if short, else by its 2-byte label (the rest must be the 'x' padding).
+type c18sMsgDec struct {
+	hdr   [5]byte
+	nh    int
+	n     int // payload length of the current message
+	have  int
+	label []byte
+	bad   string
+	msgs  []string
+}
+
+func (d *c18sMsgDec) feed(b []byte) {
+	for len(b) > 0 && d.bad == "" {
+		if d.nh < 5 {
+			k := copy(d.hdr[d.nh:], b)
+			d.nh += k
+			b = b[k:]
+			if d.nh == 5 {
+				if d.hdr[0] != 0 {
+					d.bad = "compressed flag set"
+				}
+				d.n, d.have, d.label = int(binary.BigEndian.Uint32(d.hdr[1:5])), 0, nil
+				if d.n == 0 {
+					d.msgs, d.nh = append(d.msgs, ""), 0
+				}
+			}
+			continue
+		}
+		k := min(d.n-d.have, len(b))
+		keep := 2
+		if d.n <= 8 {
+			keep = d.n
+		}
+		for i := 0; i < k; i++ {
+			if len(d.label) < keep {
+				d.label = append(d.label, b[i])
+			} else if b[i] != 'x' {
+				d.bad = fmt.Sprintf("message %q: payload byte %d is %q, not the padding", d.label, d.have+i, b[i])
+				break
+			}
+		}
+		d.have += k
+		b = b[k:]
+		if d.have == d.n {
+			d.msgs, d.nh = append(d.msgs, string(d.label)), 0
+		}
+	}
+}
+
+func (d *c18sMsgDec) partial() string {
+	switch {
+	case d.nh == 0:
+		return ""
+	case d.nh < 5:
+		return fmt.Sprintf("prefix:%d/5", d.nh)
+	}
+	return fmt.Sprintf("%s:%d/%d", d.label, d.have, d.n)
+}
+
+// attempts decodes the peers' frame logs.
 func (w *c18sWorld) attempts() []*c18sAttempt {
 	w.mu.Lock()
 	peers := append([]*wire.Peer(nil), w.peers...)
+	big := w.bigMsg
 	w.mu.Unlock()
 	var out []*c18sAttempt
 	for _, p := range peers {
@@ -127,7 +330,7 @@ func (w *c18sWorld) attempts() []*c18sAttempt {
 			}
 			a := &c18sAttempt{peer: p, stream: f.Stream, es: f.EndStream}
 			a.prev, _ = wire.Field(f.Fields, "grpc-previous-rpc-attempts")
-			var data []byte
+			var dec c18sMsgDec
 			for _, d := range log {
 				if d.Type != "DATA" || d.Stream != f.Stream {
 					continue
@@ -135,21 +338,19 @@ func (w *c18sWorld) attempts() []*c18sAttempt {
 				if a.es {
 					a.bad = "DATA after END_STREAM"
 				}
-				data = append(data, d.Data...)
+				dec.feed(d.Data)
 				a.es = a.es || d.EndStream
 			}
-			for len(data) > 0 {
-				if len(data) < 5 {
-					a.bad = fmt.Sprintf("partial message prefix %x", data)
-					break
+			a.msgs, a.partial = dec.msgs, dec.partial()
+			if dec.bad != "" {
+				a.bad = dec.bad
+			}
+			if big {
+				for _, m := range a.msgs {
+					if len(m) != 2 {
+						a.bad = fmt.Sprintf("unexpected message %q", m)
+					}
 				}
-				n := int(binary.BigEndian.Uint32(data[1:5]))
-				if data[0] != 0 || len(data) < 5+n {
-					a.bad = fmt.Sprintf("broken message framing (flag %d, %d of %d payload bytes)", data[0], len(data)-5, n)
-					break
-				}
-				a.msgs = append(a.msgs, string(data[5:5+n]))
-				data = data[5+n:]
 			}
 			out = append(out, a)
 		}
@@ -157,11 +358,22 @@ func (w *c18sWorld) attempts() []*c18sAttempt {
 	return out
 }
 
-func (a *c18sAttempt) String() string {
+func (a *c18sAttempt) body() string {
 	s := strings.Join(a.msgs, ",")
+	if a.partial != "" {
+		if s != "" {
+			s += ","
+		}
+		s += "(" + a.partial + ")"
+	}
 	if a.es {
 		s += "$"
 	}
+	return s
+}
+
+func (a *c18sAttempt) String() string {
+	s := a.body()
 	if a.bad != "" {
 		s += "!" + a.bad
 	}
@@ -172,7 +384,10 @@ var c18sRespHdr = [][2]string{{":status", "200"}, {"content-type", "application/
 
 func c18sScenario(r *vk.Run, v c18sVariant, bound int) vsched.Scenario {
 	const P = "C18"
-	return vsched.Scenario{Name: v.Name, Bound: bound, MinOutcomes: 3, Horizon: 20000, Body: func(x *vsched.X) {
+	if v.MinOutcomes == 0 {
+		v.MinOutcomes = 3
+	}
+	return vsched.Scenario{Name: v.Name, Bound: bound, MinOutcomes: v.MinOutcomes, Horizon: 20000, Body: func(x *vsched.X) {
 		x.BackgroundSetup()
 		// Free-running -race pass (no scheduler): grpc waits for the retry backoff
 		// timer with clientStream.mu held, and a goroutine blocked in a native
@@ -180,21 +395,36 @@ func c18sScenario(r *vk.Run, v c18sVariant, bound int) vsched.Scenario {
 		// bubble's clock could never advance.  There the failures carry pushback 0
 		// (timer due at once, no clock advance needed) in every scenario.
 		free := !vsched.Active()
-		w := &c18sWorld{}
+		w := &c18sWorld{answered: map[int]bool{}, bigMsg: v.FlowCtl}
+		c18sCur = w
 		ctx, cancel := context.WithCancel(context.Background())
 		var (
-			mu        sync.Mutex // harness ledger (native: invisible to the scheduler)
-			sendSeq   = []string{"m1", "m2"}
-			acked     []string
-			sendErrs  []string
-			closed    bool
-			got       []string
-			recvEnd   string
-			setupErr  string
-			failedAt  []string // attempt logs at the instant the server failed them
-			sleeps    int
-			gaveUp    bool // the environment released a hung RPC (after recording why)
+			mu       sync.Mutex // harness ledger (native: invisible to the scheduler)
+			sendSeq  = []string{"m1", "m2"}
+			acked    []string
+			sendErrs []string
+			closed   bool
+			got      []string
+			recvEnd  string
+			setupErr string
+			failedAt []string // attempt logs at the instant the server failed them
+			sleeps   int
+			gaveUp   bool   // the environment released a hung RPC (after recording why)
+			hungWhy  string //
+			granted  = map[int]bool{}
 		)
+		payload := func(label string) []byte {
+			if !v.FlowCtl {
+				return []byte(label)
+			}
+			return []byte(label + strings.Repeat("x", c18sBigMsg-len(label)))
+		}
+		release := func() {
+			w.mu.Lock()
+			w.released = true
+			w.mu.Unlock()
+			cancel()
+		}
 		cc, err := NewClient("passthrough:///c18s", WithContextDialer(w.dial), WithTransportCredentials(insecure.NewCredentials()), WithDefaultServiceConfig(c18sServiceConfig))
 		if err != nil {
 			setupErr = "NewClient: " + err.Error()
@@ -203,19 +433,19 @@ func c18sScenario(r *vk.Run, v c18sVariant, bound int) vsched.Scenario {
 		if cc != nil {
 			cc.Connect()
 			synctest.Wait()
-			cs, err = cc.NewStream(ctx, &StreamDesc{StreamName: "m", ClientStreams: true, ServerStreams: v.ServerStrm}, "/s/m", ForceCodecV2(c18sCodec{}))
+			cs, err = cc.NewStream(ctx, &StreamDesc{StreamName: "m", ClientStreams: true, ServerStreams: v.ServerStrm}, "/s/m", ForceCodecV2(c18sCodec{}), MaxRetryRPCBufferSize(16<<20))
 			if err != nil {
 				setupErr = "NewStream: " + err.Error()
 			}
 			synctest.Wait()
-			if as := w.attempts(); setupErr == "" && len(as) != 1 {
-				setupErr = fmt.Sprintf("%d request streams at the server after set-up", len(as))
+			if as := w.attempts(); setupErr == "" && (len(as) != 1 || len(w.picksSnapshot()) != 1) {
+				setupErr = fmt.Sprintf("%d request streams at the server and %d picks after set-up", len(as), len(w.picksSnapshot()))
 			}
 		}
 		if setupErr != "" {
 			r.EngineError("scenario %s: set-up failed: %s", v.Name, setupErr)
 			x.Cleanup(func() {
-				cancel()
+				release()
 				if cc != nil {
 					cc.Close()
 				}
@@ -248,7 +478,7 @@ func c18sScenario(r *vk.Run, v c18sVariant, bound int) vsched.Scenario {
 		}
 		sender := func() {
 			for _, m := range sendSeq {
-				err := cs.SendMsg([]byte(m))
+				err := cs.SendMsg(payload(m))
 				mu.Lock()
 				if err == nil {
 					acked = append(acked, m)
@@ -285,6 +515,35 @@ func c18sScenario(r *vk.Run, v c18sVariant, bound int) vsched.Scenario {
 				time.Sleep(time.Millisecond)
 			}
 		}
+		markAnswered := func(n int) {
+			w.mu.Lock()
+			w.answered[n] = true
+			w.mu.Unlock()
+		}
+		// next server action once the scripted failures are served
+		nextAct := func() (string, int) {
+			mu.Lock()
+			g := gaveUp
+			mu.Unlock()
+			if g {
+				return "stop", 0
+			}
+			as := w.attempts()
+			if v.FlowCtl {
+				for i := v.Failures; i < len(as); i++ {
+					mu.Lock()
+					done := granted[i+1]
+					mu.Unlock()
+					if !done {
+						return "grant", i + 1
+					}
+				}
+			}
+			if len(as) > v.Failures && as[len(as)-1].es {
+				return "ok", len(as)
+			}
+			return "", 0
+		}
 		x.Go("server", func() {
 			for k := 1; k <= v.Failures; k++ {
 				if k > 1 {
@@ -302,49 +561,67 @@ func c18sScenario(r *vk.Run, v c18sVariant, bound int) vsched.Scenario {
 				if v.Pushback || free {
 					h = append(h, [2]string{"grpc-retry-pushback-ms", "0"})
 				}
+				markAnswered(k)
 				a.peer.WriteHeaders(a.stream, h, true)
 			}
-			// the attempt after the scripted failures is answered OK once it was half-closed
-			await("server: await half-close of the last attempt", func() bool {
-				mu.Lock()
-				g := gaveUp
-				mu.Unlock()
-				as := w.attempts()
-				return g || (len(as) > v.Failures && as[len(as)-1].es)
-			})
-			mu.Lock()
-			g := gaveUp
-			mu.Unlock()
-			if g {
+			for {
+				// the attempt after the scripted failures is answered OK once it was
+				// half-closed; (flow-control scenario) every retry attempt first gets a
+				// stream window that lets the request through
+				await("server: await half-close of the last attempt", func() bool { act, _ := nextAct(); return act != "" })
+				act, n := nextAct()
+				switch act {
+				case "grant":
+					a := w.attempts()[n-1]
+					mu.Lock()
+					granted[n] = true
+					mu.Unlock()
+					vsched.Observe("server opens the stream window of attempt %d", n)
+					a.peer.WriteWindowUpdate(a.stream, 1<<24)
+					continue
+				case "ok":
+					a := w.attempts()[n-1]
+					vsched.Observe("server answers attempt %d OK having received %s", n, a)
+					markAnswered(n)
+					a.peer.WriteHeaders(a.stream, c18sRespHdr, false)
+					a.peer.WriteData(a.stream, false, wire.GrpcMsg(false, []byte("reply")))
+					a.peer.WriteHeaders(a.stream, [][2]string{{"grpc-status", "0"}}, true)
+				}
 				return
 			}
-			as := w.attempts()
-			a := as[len(as)-1]
-			vsched.Observe("server answers attempt %d OK having received %s", len(as), a)
-			a.peer.WriteHeaders(a.stream, c18sRespHdr, false)
-			a.peer.WriteData(a.stream, false, wire.GrpcMsg(false, []byte("reply")))
-			a.peer.WriteHeaders(a.stream, [][2]string{{"grpc-status", "0"}}, true)
 		})
 		x.OnStuck(func() bool {
 			// nothing can run: the retry backoff timer (or nothing at all) is pending
 			mu.Lock()
 			done, g := closed, gaveUp
 			mu.Unlock()
-			if as := w.attempts(); done && !g && len(as) == v.Failures+1 && !as[len(as)-1].es && sleeps >= v.Failures {
+			if g {
+				return false
+			}
+			as := w.attempts()
+			why := ""
+			if done && len(as) == v.Failures+1 && !as[len(as)-1].es && sleeps >= v.Failures {
 				// CloseSend has returned, every scripted retry has happened and was
 				// replayed, nothing is running and no timer is left - yet the live
-				// attempt was never half-closed: the RPC would hang for ever.  Final
-				// reports it (last attempt differs from what was acknowledged); release
-				// the RPC so that the execution can end and exploration goes on.
-				vsched.Observe("environment: RPC hangs (live attempt %s not half-closed after CloseSend returned), cancelling", as[len(as)-1])
-				mu.Lock()
-				gaveUp = true
-				mu.Unlock()
-				cancel()
-				return true
+				// attempt was never half-closed
+				why = fmt.Sprintf("live attempt %s not half-closed after CloseSend returned", as[len(as)-1])
+			} else if sleeps >= v.Failures+2 {
+				// every backoff had its turn and more: some thread is blocked for good
+				var logs []string
+				for _, a := range as {
+					logs = append(logs, a.String())
+				}
+				why = fmt.Sprintf("nothing can run and no timer is left; attempts at the server %v", logs)
 			}
-			if sleeps >= 6 {
-				return false
+			if why != "" {
+				// The RPC would hang for ever.  Final reports it; release the RPC so
+				// that the execution can end and exploration goes on.
+				vsched.Observe("environment: RPC hangs (%s), cancelling", why)
+				mu.Lock()
+				gaveUp, hungWhy = true, why
+				mu.Unlock()
+				release()
+				return true
 			}
 			sleeps++
 			time.Sleep(time.Second)
@@ -359,14 +636,41 @@ func c18sScenario(r *vk.Run, v c18sVariant, bound int) vsched.Scenario {
 			for _, a := range as {
 				logs = append(logs, a.String())
 			}
+			picks := w.picksSnapshot()
+			var doneCounts []int
+			var pickLog []string
+			for _, pk := range picks {
+				doneCounts = append(doneCounts, len(pk.Dones))
+				pickLog = append(pickLog, fmt.Sprintf("pick#%d:%+v", pk.ID, pk.Dones))
+			}
 			mu.Lock()
 			defer mu.Unlock()
-			state := fmt.Sprintf("attempts %v; SendMsg returned nil for %v (errors %v); CloseSend returned %v; receiver got %v then %q; server failed attempts holding %v", logs, acked, sendErrs, closed, got, recvEnd, failedAt)
+			state := fmt.Sprintf("attempts %v; SendMsg returned nil for %v (errors %v); CloseSend returned %v; receiver got %v then %q; server failed attempts holding %v; Done calls %v", logs, acked, sendErrs, closed, got, recvEnd, failedAt, pickLog)
+
+			// ---- C23: every pick's Done exactly once, not before its attempt ended
+			if len(picks) != len(as) {
+				x.Fail("C23", "picks-differ-from-attempts", "%d picks returned a SubConn but %d attempts reached the server\n  %s", len(picks), len(as), state)
+			}
+			for _, pk := range picks {
+				switch n := len(pk.Dones); {
+				case n == 0:
+					x.Fail("C23", fmt.Sprintf("done-never-called/pick#%d", pk.ID), "the Done callback of pick #%d (of %d) was never invoked although the RPC has ended: its attempt was orphaned\n  %s", pk.ID, len(picks), state)
+				case n > 1:
+					x.Fail("C23", fmt.Sprintf("done-called-twice/pick#%d", pk.ID), "the Done callback of pick #%d was invoked %d times\n  %s", pk.ID, n, state)
+				}
+				for _, d := range pk.Dones {
+					if d.Early {
+						x.Fail("C23", fmt.Sprintf("done-before-attempt-ended/pick#%d", pk.ID), "Done of pick #%d ran before the server had answered attempt %d (and nothing was cancelled)\n  %s", pk.ID, pk.ID, state)
+					}
+				}
+			}
+
+			// ---- C18
 			if x.Stuck != "" {
 				x.Fail(P, "deadlock", "%s\n  %s", x.Stuck, state)
 				return
 			}
-			// every attempt: a prefix of the application's send sequence, END_STREAM only after all of what was acknowledged
+			// every attempt: a prefix of the application's send sequence
 			for i, a := range as {
 				if a.bad != "" {
 					x.Fail(P, "malformed-request-stream", "attempt %d: %s\n  %s", i+1, a.bad, state)
@@ -393,16 +697,13 @@ func c18sScenario(r *vk.Run, v c18sVariant, bound int) vsched.Scenario {
 				if closed {
 					want += "$"
 				}
-				have := strings.Join(last.msgs, ",")
-				if last.es {
-					have += "$"
-				}
-				if have != want {
+				if have := last.body(); have != want {
 					x.Fail(P, fmt.Sprintf("last-attempt-received[%s]-acknowledged[%s]", have, want), "the last attempt (%d) received [%s] but the application was told that [%s] had been sent (SendMsg returned nil for each, CloseSend returned)\n  %s", len(as), have, want, state)
 				}
 			}
 			if gaveUp {
-				x.Outcome(fmt.Sprintf("HUNG failed@%v attempts=%v", failedAt, logs))
+				x.Fail(P, "rpc-hung", "the RPC never finished: %s\n  %s", hungWhy, state)
+				x.Outcome(fmt.Sprintf("HUNG failed@%v attempts=%v dones=%v", failedAt, logs, doneCounts))
 				return
 			}
 			if len(sendErrs) > 0 {
@@ -422,10 +723,10 @@ func c18sScenario(r *vk.Run, v c18sVariant, bound int) vsched.Scenario {
 			if len(as) > 0 {
 				lastLog = as[len(as)-1].String()
 			}
-			x.Outcome(fmt.Sprintf("failed@%v last=%s", failedAt, lastLog))
+			x.Outcome(fmt.Sprintf("failed@%v last=%s dones=%v", failedAt, lastLog, doneCounts))
 		})
 		x.Cleanup(func() {
-			cancel()
+			release()
 			cc.Close()
 			w.mu.Lock()
 			ps := append([]*wire.Peer(nil), w.peers...)
@@ -440,18 +741,25 @@ func c18sScenario(r *vk.Run, v c18sVariant, bound int) vsched.Scenario {
 
 func TestVerif_C18_RetrySched(t *testing.T) {
 	const P = "C18"
-	r := vk.Start(t, "c18_retry_sched", "exploration", P)
+	r := vk.Start(t, "c18_retry_sched", "exploration", P, "C23")
 	defer r.Finish()
 	b := r.Pick(2, 4)
-	r.Rule(P, fmt.Sprintf("every schedule with at most %d preemptions (quick 2, thorough 4) of {sender: SendMsg(m1), SendMsg(m2), CloseSend; receiver: RecvMsg loop (or Header() first); server: trailers-only UNAVAILABLE on attempt 1 (and 2, optionally with pushback 0), OK on the last attempt after its half-close} on the instrumented real clientStream of a real ClientConn (retry policy maxAttempts 3); scenarios vary the number of retries, pushback, the receiver's first call, the stream kind and the thread order (= the default schedule); non-trivial = executions deviating from the default schedule; outcomes = what each failed attempt had received when it was failed", b))
-	r.Assume(P, "scheduling points are the synchronisation operations of the instrumented root package (vsync/vatomic, channel statements, selects); internal/transport and the raw peer are not instrumented and run to quiescence between managed steps (synctest); a managed thread blocked natively inside the transport is resumed by the transport, not by the explorer; the retry backoff is passed by advancing virtual time when nothing is enabled")
+	rule := fmt.Sprintf("every schedule with at most %d preemptions (quick 2, thorough 4) of {sender: SendMsg(m1), SendMsg(m2), CloseSend; receiver: RecvMsg loop (or Header() first); server: trailers-only UNAVAILABLE on attempt 1 (and 2, optionally with pushback 0), OK on the last attempt after its half-close} on the instrumented real clientStream of a real ClientConn (retry policy maxAttempts 3, harness LB policy with numbered picks and recording Done callbacks); scenarios vary the number of retries, pushback, the receiver's first call, the stream kind, the thread order (= the default schedule) and flow control (200 KB messages with attempt 1's window closed: sender blocked in SendMsg and receiver in RecvMsg see the same failure); non-trivial = executions deviating from the default schedule; outcomes = what each failed attempt had received when it was failed + Done counts per pick", b)
+	r.Rule(P, rule)
+	r.Rule("C23", rule+"; C23 part: at the end of every execution (RPC finished or released by cancellation, channel still open) every pick that returned a SubConn had Done invoked exactly once, never before the server answered its attempt, and picks = attempts at the server")
+	for _, p := range []string{P, "C23"} {
+		r.Assume(p, "scheduling points are the synchronisation operations of the instrumented root package (vsync/vatomic, channel statements, selects); internal/transport and the raw peer are not instrumented and run to quiescence between managed steps (synctest); a managed thread blocked natively inside the transport is resumed by the transport, not by the explorer; the retry backoff is passed by advancing virtual time when nothing is enabled")
+	}
 	scs := []vsched.Scenario{
 		c18sScenario(r, c18sVariant{Name: "1retry/recv-first/bidi", Failures: 1, Receiver: "recv", ServerStrm: true, RecvFirst: true}, b),
 		c18sScenario(r, c18sVariant{Name: "1retry/send-first/client-stream", Failures: 1, Receiver: "recv", ServerStrm: false, RecvFirst: false}, b),
 		c18sScenario(r, c18sVariant{Name: "2retries-pushback/recv-first/bidi", Failures: 2, Pushback: true, Receiver: "recv", ServerStrm: true, RecvFirst: true}, b),
 		c18sScenario(r, c18sVariant{Name: "2retries-backoff/send-first/client-stream", Failures: 2, Receiver: "recv", ServerStrm: false, RecvFirst: false}, b),
 		c18sScenario(r, c18sVariant{Name: "1retry/header-first/bidi", Failures: 1, Receiver: "header", ServerStrm: true, RecvFirst: true}, b),
+		c18sScenario(r, c18sVariant{Name: "1retry/flow-control-blocked-send/bidi", Failures: 1, Receiver: "recv", ServerStrm: true, RecvFirst: true, FlowCtl: true, MinOutcomes: 1}, b),
 	}
-	vsched.RunScenarios(t, r, []string{P}, scs)
-	r.Sample(P, map[string]any{"scenario": "1retry/recv-first/bidi", "threads": []string{"receiver: RecvMsg until error", "sender: SendMsg(m1); SendMsg(m2); CloseSend()", "server: trailers-only UNAVAILABLE on attempt 1; await half-close of attempt 2; headers+message+OK trailers"}})
+	vsched.RunScenarios(t, r, []string{P, "C23"}, scs)
+	for _, p := range []string{P, "C23"} {
+		r.Sample(p, map[string]any{"scenario": "1retry/recv-first/bidi", "threads": []string{"receiver: RecvMsg until error", "sender: SendMsg(m1); SendMsg(m2); CloseSend()", "server: trailers-only UNAVAILABLE on attempt 1; await half-close of attempt 2; headers+message+OK trailers"}, "lb": "harness policy: one subchannel, every pick numbered, Done recorded (count, DoneInfo.Err, BytesSent, BytesReceived)"})
+	}
 }
